@@ -50,6 +50,10 @@ func wiringCases() []WiringCase {
 	for _, v := range dnsResolverLists {
 		out = append(out, WiringCase{"upstream-dns-resolvers", v})
 	}
+	// a unix-socket server started where a socket file of an earlier, uncleanly ended run is left
+	for _, s := range []string{"unix", "unix+tls", "unixpacket+tls"} {
+		out = append(out, WiringCase{"server-stale-unix-socket", s})
+	}
 	return out
 }
 
@@ -148,6 +152,9 @@ func runWiring(w WiringCase) (kind, detail string) {
 	}()
 	if w.Wiring == "upstream-dns-resolvers" {
 		return runDnsResolverList(w)
+	}
+	if w.Wiring == "server-stale-unix-socket" {
+		return runStaleUnix(w)
 	}
 	p := pki.Real()
 	if w.Wiring == "server" {
@@ -468,6 +475,61 @@ func runDnsServerWiring(w WiringCase, address, host string, p *pki.PKI) (kind, d
 		if !speaksTLS(c) {
 			return "plaintext-instead-of-tls", "the dns+tcp+tls endpoint did not complete a TLS handshake"
 		}
+	}
+	return "", ""
+}
+
+
+// runStaleUnix: the server is started for <scheme>://stale.sock (the host form of unix
+// addresses, relative to the working directory) where a socket file nobody listens on is left
+// over. Refusing to start is a configuration error; if it starts, it must serve the documented
+// transport.
+func runStaleUnix(w WiringCase) (kind, detail string) {
+	p := pki.Real()
+	dir, err := os.MkdirTemp("", "verif-c18-")
+	if err != nil {
+		return "inconclusive", err.Error()
+	}
+	defer os.RemoveAll(dir)
+	old, _ := os.Getwd()
+	if err := os.Chdir(dir); err != nil {
+		return "inconclusive", err.Error()
+	}
+	defer os.Chdir(old)
+	network := "unix"
+	if strings.HasPrefix(w.Scheme, "unixpacket") {
+		network = "unixpacket"
+	}
+	ul, err := net.Listen(network, "stale.sock")
+	if err != nil {
+		return "inconclusive", "cannot create the stale socket: " + err.Error()
+	}
+	ul.(*net.UnixListener).SetUnlinkOnClose(false)
+	ul.Close()
+	cfg := map[string]interface{}{"address": w.Scheme + "://stale.sock", "certificate": p.Server.CertPEM, "privateKey": p.Server.KeyPEM}
+	js, _ := json.Marshal([]interface{}{cfg})
+	var servers server.Servers
+	if err := servers.UnmarshalJSON(js); err != nil {
+		return "", "" // a configuration error
+	}
+	if err := servers[0].Startup(server.Channels{}); err != nil {
+		return "", "" // refuses to start over the leftover file: a (loud) configuration error
+	}
+	defer servers[0].Shutdown()
+	wantTLS := strings.HasSuffix(w.Scheme, "+tls")
+	var c net.Conn
+	for i := 0; i < 50; i++ {
+		if c, err = net.Dial(network, "stale.sock"); err == nil {
+			break
+		}
+		time.Sleep(20 * time.Millisecond)
+	}
+	if err != nil {
+		return "inconclusive", "the server started but its socket cannot be dialled: " + err.Error()
+	}
+	defer c.Close()
+	if wantTLS && !speaksTLS(c) {
+		return "plaintext-instead-of-tls|after-stale-socket", fmt.Sprintf("a %s server started over a leftover socket file does not complete a TLS handshake on its socket", w.Scheme)
 	}
 	return "", ""
 }
